@@ -82,6 +82,8 @@ int Needs(const Rec& r) {
 struct World {
   yaclib::FairThreadPool* pool[2] = {nullptr, nullptr};
   yaclib::FairThreadPool* stopped = nullptr;
+  yaclib::FairThreadPool* late[3] = {nullptr, nullptr, nullptr};  // one per coroutine: stopped by the coroutine itself
+  std::uint64_t late_worker[3] = {0, 0, 0};
   std::uint64_t worker[2] = {0, 0};
   std::vector<yaclib::Future<int>> fut;  // awaited unique futures (each used once)
   std::vector<int> outcome, begun;       // 0 value, 1 exception, 2 error
@@ -91,6 +93,9 @@ struct World {
   int locals_alive = 0, locals_made = 0;
   int resumes = 0, awaits = 0;
   int raced = 0;
+  unsigned kinds_run = 0;     // bit per record kind whose co_await was reached
+  unsigned variants_run = 0;  // bit 0: executor stopped while the coroutine ran on it, 1: awaited future completed by a
+                              // coroutine, 2: Await(task) on an lvalue, 3: co_return of a throwing copy
   void Err(const char* e) {
     if (err == nullptr) {
       err = e;
@@ -154,6 +159,16 @@ Ret Script(World& w, std::vector<Rec> recs, int first_fut, int id) {
   for (auto r : recs) {
     ++w.awaits;
     const int kind = r.kind % kKindN;
+    w.kinds_run |= 1u << kind;
+    if ((kind == kOnStopped || kind == kAwaitOnStopped) && r.b % 3 != 0) {
+      w.variants_run |= 1u;
+    }
+    if (kind == kInnerTask && r.b % 4 != 0) {
+      w.variants_run |= 4u;
+    }
+    if (kind == kThrow && r.b % 4 != 0) {
+      w.variants_run |= 8u;
+    }
     int used = -1;  // index of the (first) unique future consumed by this record
     try {
       switch (kind) {
@@ -337,13 +352,35 @@ Ret Script(World& w, std::vector<Rec> recs, int first_fut, int id) {
           break;
         }
         case kOnStopped:
-          co_await yaclib::On(*w.stopped);
+          if (r.b % 3 == 0) {
+            co_await yaclib::On(*w.stopped);
+          } else {
+            // the executor is stopped while the coroutine is running on it (its own executor already is the one named)
+            auto& late = *w.late[id % 3];
+            co_await yaclib::On(late);
+            if (yaclib_std::this_thread::get_id() != w.late_worker[id % 3]) {
+              w.Err("after On(e) the coroutine does not run on e");
+            }
+            late.Stop();
+            if (r.b % 3 == 1) {
+              co_await yaclib::On(late);
+            } else {
+              co_await yaclib::kYield;
+            }
+          }
           ++w.resumes;
-          w.Err("code after co_await On(stopped executor) ran");
+          w.Err("code after co_await On(stopped executor) / kYield on a stopped own executor ran");
           break;
         case kAwaitOnStopped: {
           const int i = used = next++;
-          co_await yaclib::AwaitOn(*w.stopped, w.fut[static_cast<std::size_t>(i)]);
+          if (r.b % 3 == 0) {
+            co_await yaclib::AwaitOn(*w.stopped, w.fut[static_cast<std::size_t>(i)]);
+          } else {
+            auto& late = *w.late[id % 3];
+            co_await yaclib::On(late);
+            late.Stop();
+            co_await yaclib::AwaitOn(late, w.fut[static_cast<std::size_t>(i)]);  // ready or pending: e refuses either way
+          }
           ++w.resumes;
           w.Err("code after co_await AwaitOn(stopped executor, f) ran");
           break;
@@ -522,10 +559,22 @@ class Coro final : public vf::Family {
       w.pool[1] = &p1;
       w.stopped = &ps;
       ps.Stop();
+      yaclib::FairThreadPool l0{1}, l1{1}, l2{1};
+      w.late[0] = &l0;
+      w.late[1] = &l1;
+      w.late[2] = &l2;
       for (int e = 0; e < 2; ++e) {
         auto [f, p] = yaclib::MakeContract<int>();
         yaclib::Submit(*w.pool[e], [&w, e, p = std::move(p)]() mutable {
           w.worker[e] = yaclib_std::this_thread::get_id();
+          std::move(p).Set(1);
+        });
+        (void)std::move(f).Get();
+      }
+      for (int e = 0; e < 3; ++e) {
+        auto [f, p] = yaclib::MakeContract<int>();
+        yaclib::Submit(*w.late[e], [&w, e, p = std::move(p)]() mutable {
+          w.late_worker[e] = yaclib_std::this_thread::get_id();
           std::move(p).Set(1);
         });
         (void)std::move(f).Get();
@@ -665,9 +714,15 @@ class Coro final : public vf::Family {
       w.sf[1] = {};
       p0.Stop();
       p1.Stop();
+      l0.Stop();
+      l1.Stop();
+      l2.Stop();
       p0.Wait();
       p1.Wait();
       ps.Wait();
+      l0.Wait();
+      l1.Wait();
+      l2.Wait();
     });
     v.inconclusive = ex.over_budget;
     int expected_awaits_min = 0;
@@ -687,6 +742,21 @@ class Coro final : public vf::Family {
     v.hash = vf::Mix64(c.ProgHash(), ex.trace_hash);
     if (w.raced > 0) {
       v.tags.push_back("awaited-not-ready-at-co_await");
+    }
+    for (int k = 0; k < kKindN; ++k) {
+      if ((w.kinds_run >> k) & 1u) {
+        v.tags.push_back(vf::Intern(std::string("reached:") + kKindName[k]));
+      }
+    }
+    if (c.H(4) % 3 != 0) {
+      w.variants_run |= 2u;
+    }
+    static const char* const kVar[] = {"variant:executor-stopped-while-running-on-it", "variant:futures-completed-by-coroutines",
+                                       "variant:Await(task)-lvalue", "variant:co_return-throwing-copy"};
+    for (int k = 0; k < 4; ++k) {
+      if ((w.variants_run >> k) & 1u) {
+        v.tags.push_back(kVar[k]);
+      }
     }
     char b[96];
     std::snprintf(b, sizeof b, "awaits=%d resumes=%d switches=%u", w.awaits, w.resumes, ex.switches);
